@@ -169,6 +169,29 @@ def gen_schema(rng):
                 iv = "uniq_%s_%d" % (e, j)
             used.append(iv)
             vals.append([name, iv])
+        if len(vals) >= 2 and rng.random() < 0.45:
+            # internal values spelled like member NAMES: a permutation of the name set, a partial
+            # collision, a value equal to its own name, mixed with ints -- serialisation must go by the
+            # internal value, never by a name that happens to be spelled the same
+            names = [n for n, _ in vals]
+            mode = rng.choice(["rotate", "swap-two", "one-collision", "mixed"])
+            if mode == "rotate":
+                k = rng.randint(1, len(names) - 1)
+                for i in range(len(vals)):
+                    vals[i][1] = names[(i + k) % len(names)]
+            elif mode == "swap-two":
+                i, j = rng.sample(range(len(vals)), 2)
+                vals[i][1], vals[j][1] = names[j], names[i]
+            elif mode == "one-collision":
+                i, j = rng.sample(range(len(vals)), 2)
+                vals[i][1] = names[j]
+            else:
+                i, j = rng.sample(range(len(vals)), 2)
+                vals[i][1] = names[j]
+                vals[j][1] = rng.choice([names[j], rng.randint(2, 9) * 11])
+                for k in range(len(vals)):
+                    if k not in (i, j) and rng.random() < 0.5:
+                        vals[k][1] = names[i]
         enum_defs[e] = vals
 
     # global field pool: a field name determines its type and arguments
